@@ -153,7 +153,7 @@ def runSteps (cfg : Cfg) : List J → Heap → List Schema → Except String (He
         match st.strD "op" with
         | "clone" => clone cfg FUEL s h
         | "transform" => transform cfg FUEL ((st.arrD "visitors").map visitorOfJson) s h
-        | "extend" => some (extend cfg (extOfJson (st.getD "ext")) s h)
+        | "extend" => some (extendO cfg (extOfJson (st.getD "ext")) s h)
         | "replace" => replaceStep cfg (strPairs st "entries") s h
         -- `visitor.on_schema(ss[src])` for each visitor, IN PLACE on an existing schema of the list (no clone): the schema is
         -- replaced in the list (Props/C14_inplace.lean: `ReachI.inplace`)
